@@ -1,15 +1,26 @@
-"""Rules about the placement algorithm of StagesBuilder (find_conflict,
-insertion_target, remove_ids, add_barrier).  Shared by C01, C02, C03, C10,
-C18, C19.  Each function reports under the rule id it is given."""
+"""Rules about the placement algorithm of StagesBuilder (insert, insertion_target, find_conflict,
+remove_ids, add_barrier).  Shared by C01, C02, C03, C04, C05, C10, C16, C18.
+
+The rules are stated over the structured evaluation of sem.py, not over the way the source happens to be
+written: a loop is a loop whether it is a `for`, a `while` or a `filter(..).fold(..)`; a helper function,
+a closure and inline code tabulate the same; `a < K` and `!(a >= K)` are the same condition."""
+import re
+
 from . import anchors as A
-from . import shared as S
-from .facts import Callee, AnchorError
-from .paths import enumerate_paths
-from .shapes import traversals, root, TRANSPARENT, iter_type_class
-from .terms import subterms
+from . import semq as Q
+from .facts import AnchorError
+from .sem import OPTION
+
+PEQ = ("std::cmp::PartialEq", "core::cmp::PartialEq")
+
+OPAQUE_FC = [A.F_CHECK_INTERSECTION, A.CONFLICT + "::add"]
+OPAQUE_IT = [A.SB + "::find_conflict", A.SB + "::remove_ids", A.SB + "::improves_balance"]
+OPAQUE_INS = [A.SB + "::insertion_target", A.SB + "::add_stage", A.SB + "::add_group"]
 
 
 def _callee(body, t):
+    """(terms.py terms) callee of a call term."""
+    from . import shared as S
     return S.callee_at(body, t[1]) if isinstance(t, tuple) and t and t[0] == "call" else None
 
 
@@ -18,487 +29,577 @@ def _is_call(body, t, name, head=None, trait=None):
     return bool(c and c.name == name and (head is None or c.self_head == head) and (trait is None or c.trait == trait))
 
 
-def acc_fields(facts):
-    """Names of the StagesBuilder fields that accumulate declared reads,
-    declared writes and system ids, derived from what `insert` stores there."""
-    body = facts.one(A.SB + "::insert")
-    out = {}
-    for p in enumerate_paths(body, facts):
-        if p.end != "return":
-            continue
-        for e in p.effects:
-            if e[0] != "call" or e[2].local or len(e[3]) < 2:
-                continue
-            fields, idx, base = S.table_access(body, e[3][0])
-            cf = S.crate_fields(fields)
-            if not cf or cf[0][0] != A.SB:
-                continue
-            v = e[3][1]
-            c = _callee(body, v)
-            if e[2].name == "extend" and c and c.trait == A.T_ACCESSOR and c.name == "reads":
-                out["R"] = cf[0][1]
-            elif e[2].name == "extend" and c and c.trait == A.T_ACCESSOR and c.name == "writes":
-                out["W"] = cf[0][1]
-            elif e[2].name == "push" and v == ("param", 3):
-                out["ID"] = cf[0][1]
-    if set(out) != set(["R", "W", "ID"]):
-        raise AnchorError("cannot derive the accumulating tables from insert (found %s)" % out)
-    return out
+def _ret_ends(ends):
+    return [e for e in ends if e.kind == "return"]
 
 
-def operand_roles(prog, facts, body, term, acc):
-    """Roles of a check_intersection operand: NEW-R / NEW-W (declared sets of
-    the system being inserted), DEP (its pending dependency list), ACC-R /
-    ACC-W / ACC-ID (the accumulated tables)."""
-    insert = facts.one(A.SB + "::insert")
-    prog.stop_bodies = set([insert.key])
+def _one_loop(ev, ends, pred, what):
+    """The loop (same place in the code on every path) whose iterations satisfy `pred`."""
+    ls = [L for L in Q.all_loops(ends) if pred(L)]
+    ids = set(L.id for L in ls)
+    if len(ids) != 1:
+        raise AnchorError("expected exactly one loop that %s, found %d" % (what, len(ids)))
+    return ls
 
-    def is_src(c, b, bb):
-        return c.trait == A.T_ACCESSOR and c.name in ("reads", "writes") and b.key == insert.key
 
-    leaves = prog.origins(body, term, is_src)
-    roles = set()
-    for lf in leaves:
-        if lf[0] == "src":
-            c = S.callee_at(facts.bodies[lf[1]], lf[2])
-            roles.add("NEW-R" if c.name == "reads" else "NEW-W")
-        elif lf[0] == "field" and lf[1] == A.SB:
-            if lf[2] == acc["R"]:
-                roles.add("ACC-R")
-            elif lf[2] == acc["W"]:
-                roles.add("ACC-W")
-            elif lf[2] == acc["ID"]:
-                roles.add("ACC-ID")
+class Model(object):
+    """The three evaluations the placement rules share, with the roles of their parameters derived from
+    the code: which arguments are the declared reads / writes of the system being inserted, which the
+    pending dependency list, which tables accumulate what."""
+
+    def __init__(self, ctx, facts):
+        self.facts = facts
+        self.ins = facts.one(A.SB + "::insert")
+        self.it = facts.one(A.SB + "::insertion_target")
+        self.fc = facts.one(A.SB + "::find_conflict")
+        self.ins_ev, self.ins_ends = Q.sem(ctx, facts, A.SB + "::insert", opaque=OPAQUE_INS)
+        self.it_ev, self.it_ends = Q.sem(ctx, facts, A.SB + "::insertion_target", opaque=OPAQUE_IT)
+        self.fc_ev, self.fc_ends = Q.sem(ctx, facts, A.SB + "::find_conflict", opaque=OPAQUE_FC)
+        self._insert_roles()
+        self._scan()
+        self._group()
+
+    # ---- insert: roles of insertion_target's parameters, accumulating tables
+    def _insert_roles(self):
+        ev = self.ins_ev
+        rets = _ret_ends(self.ins_ends)
+        if not rets:
+            raise AnchorError("insert has no normal path")
+        roles = set()
+        for e in rets:
+            cs = Q.calls_in(e.path.events, lambda c: c.key == self.it.key or getattr(c, "resolved_key", None) == self.it.key)
+            if len(cs) != 1:
+                raise AnchorError("insert is expected to ask insertion_target exactly once per path, found %d" % len(cs))
+            roles.add(tuple(self._ins_role(a) for a in cs[0][3]))
+        if len(roles) != 1:
+            raise AnchorError("insert calls insertion_target with arguments of different roles on different paths: %s" % sorted(roles))
+        self.it_role = dict((j + 1, r) for j, r in enumerate(list(roles)[0]))
+        acc = {}
+        for e in rets:
+            for ce in Q.calls_in(e.path.events, lambda c: not c.local and c.name in ("extend", "push", "extend_from_slice", "append")):
+                a = ce[3]
+                if len(a) < 2:
+                    continue
+                fields, idx, base = Q.table_access(ev, a[0])
+                cf = Q.crate_fields(fields)
+                if not cf or cf[0][0] != A.SB or base != ("param", 1):
+                    continue
+                r = self._ins_role(a[1])
+                if r == "NEW-R":
+                    acc.setdefault("R", set()).add(cf[0][1])
+                elif r == "NEW-W":
+                    acc.setdefault("W", set()).add(cf[0][1])
+                elif Q.strip(ev, a[1]) == ("param", 3):
+                    acc.setdefault("ID", set()).add(cf[0][1])
+        if set(acc) != set(["R", "W", "ID"]) or any(len(v) != 1 for v in acc.values()):
+            raise AnchorError("cannot derive the accumulating tables from insert (found %s)" % dict((k, sorted(v)) for k, v in acc.items()))
+        self.acc = dict((k, list(v)[0]) for k, v in acc.items())
+
+    def _ins_role(self, t):
+        ev = self.ins_ev
+        t = Q.strip(ev, t)
+        c = Q.callee_of(ev, t)
+        if c is not None and c.trait == A.T_ACCESSOR and c.name == "reads":
+            return "NEW-R"
+        if c is not None and c.trait == A.T_ACCESSOR and c.name == "writes":
+            return "NEW-W"
+        if t == ("param", 1):
+            return "SELF"
+        if t == ("param", 2):
+            return "DEP"
+        return "OTHER"
+
+    # ---- insertion_target: the scan over candidate stages
+    def _scan(self):
+        ev = self.it_ev
+        is_fc = lambda c: c.key == self.fc.key or getattr(c, "resolved_key", None) == self.fc.key
+        self.scans = _one_loop(ev, self.it_ends, lambda L: Q.loop_contains_call(L, is_fc, deep=False), "judges candidate stages with find_conflict")
+        S = self.scans[0]
+        self.scan = S
+        calls = set()
+        for it in S.iters:
+            for ce in Q.calls_in(it.path.events, is_fc):
+                calls.add(ce[4])
+        if len(calls) != 1:
+            raise AnchorError("the candidate scan calls find_conflict in %d different ways" % len(calls))
+        self.fc_call = list(calls)[0]
+        self.fc_role = {}
+        for i, a in enumerate(self.fc_call[2]):
+            self.fc_role[i + 1] = self._it_role(a, S)
+
+    def _it_role(self, t, S):
+        ev = self.it_ev
+        s = Q.strip(ev, t)
+        if s == S.elem:
+            return "STAGE"
+        fields, idx, base = Q.table_access(ev, t)
+        cf = Q.crate_fields(fields)
+        if base[0] == "param":
+            r = self.it_role.get(base[1], "OTHER")
+            if r == "SELF":
+                if len(cf) == 1 and cf[0][0] == A.SB and not idx:
+                    for k, f in self.acc.items():
+                        if f == cf[0][1]:
+                            return "ACC-" + k
+                    return "FIELD:" + cf[0][1]
+                return "SELF" if not cf and not idx else "OTHER"
+            if not cf and not idx:
+                return r
+        return "OTHER"
+
+    # ---- find_conflict: the loop over the groups of a stage
+    def _group(self):
+        ev = self.fc_ev
+        is_ci = lambda c: c.key == A.F_CHECK_INTERSECTION
+        self.groups = _one_loop(ev, self.fc_ends, lambda L: Q.loop_contains_call(L, is_ci, deep=False), "tests the groups of a stage with check_intersection")
+        G = self.groups[0]
+        self.group = G
+        add_key = self.facts.one(A.CONFLICT + "::add").key
+        self.acc_keys = set()
+        self.flag_keys = set()
+        for it in G.iters:
+            for k, v in it.updates.items():
+                if v == ("lvar", G.id, k):
+                    continue
+                if Q.is_call(ev, v, "add") and Q.callee_of(ev, v).key == add_key:
+                    self.acc_keys.add(k)
+                elif v in (("int", 1), ("int", 0)):
+                    self.flag_keys.add(k)
+                else:
+                    self.acc_keys.add(k)
+
+    def fc_operand(self, t):
+        """[(role, index terms)] for the collections a check_intersection operand ranges over."""
+        ev = self.fc_ev
+        out = []
+        for lf in Q.leaves(ev, t):
+            fields, idx, base = Q.table_access(ev, lf)
+            if base[0] == "param":
+                out.append((self.fc_role.get(base[1], "OTHER"), idx))
             else:
-                roles.add("FIELD:" + lf[2])
-        elif lf[0] == "param" and lf[1] == insert.key and lf[2] == 2:
-            roles.add("DEP")
-        elif lf[0] in ("scalar", "int", "elem_of_call", "env"):
-            continue
-        else:
-            roles.add("?%s" % (lf,))
-    return roles
+                out.append(("?%s" % (base[:1],), idx))
+        return out
 
 
-def _intersection_wrapper(facts, callee):
-    """If `callee` is an in-crate helper that just returns check_intersection(param i, param j)
-    (possibly through iter()/clone()/into_iter()), return (i, j); else None."""
-    tb = facts.target_bodies(callee, precise=True)
-    if len(tb) != 1 or tb[0].is_closure:
-        return None
-    body = tb[0]
-    try:
-        ps = [p for p in enumerate_paths(body, facts) if p.end == "return"]
-    except Exception:
-        return None
-    if len(ps) != 1 or ps[0].conds:
-        return None
-    r = ps[0].ret
-    if not (isinstance(r, tuple) and r[0] == "call" and S.callee_at(body, r[1]).key == A.F_CHECK_INTERSECTION):
-        return None
-    out = []
-    for a in r[2]:
-        while isinstance(a, tuple) and a and a[0] == "call" and S.callee_at(body, a[1]).name in TRANSPARENT and a[2]:
-            a = a[2][0]
-        if not (isinstance(a, tuple) and a[0] == "param"):
-            return None
-        out.append(a[1])
-    return tuple(out) if len(out) == 2 else None
+def model(ctx, facts):
+    cache = ctx.__dict__.setdefault("_placement", {})
+    if id(facts) not in cache:
+        cache[id(facts)] = Model(ctx, facts)
+    return cache[id(facts)]
 
 
-# ------------------------------------------------------------------ MATRIX / DEPHIT
+# ------------------------------------------------------------------ MATRIX / DEPHIT / EXACT
 
 def matrix(ctx, report, rule, facts, config, want=("matrix", "exact", "dephit", "index")):
-    """The per-group predicate of find_conflict."""
-    prog = ctx.program(facts)
-    acc = acc_fields(facts)
-    fc = facts.one(A.SB + "::find_conflict")
-    preds = [c for c in facts.closures_of(fc, False)]
-    if len(preds) != 1:
-        raise AnchorError("find_conflict is expected to hold exactly one closure (the group predicate), found %d" % len(preds))
-    b = preds[0]
-    report.touched(b, config)
-    report.touched(fc, config)
-    paths = enumerate_paths(b, facts)
+    """What one group contributes to the verdict of find_conflict."""
+    m = model(ctx, facts)
+    ev = m.fc_ev
+    G = m.group
+    report.touched(m.fc, config)
+    site = Q.site_of(ev, G) or m.fc.loc()
+    is_ci = lambda t: Q.is_call(ev, t, "check_intersection") and Q.callee_of(ev, t).key == A.F_CHECK_INTERSECTION
     atomic = set()
     dep_pairs = set()
-    cond_info = {}
-    for p in paths:
-        for (ct, cv, cn, cb) in p.conds:
-            if ct in cond_info or not (isinstance(ct, tuple) and ct and ct[0] == "call"):
+    info = {}
+    slot_problems = []
+    stage_par = [i for i, r in m.fc_role.items() if r == "STAGE"]
+    for it in G.iters:
+        for (ct, cv, cn, cs) in it.conds:
+            if ct in info or not is_ci(ct):
                 continue
-            ops = None
-            if S.callee_at(b, ct[1]).key == A.F_CHECK_INTERSECTION:
-                ops = (ct[2][0], ct[2][1])
-            else:
-                w = _intersection_wrapper(facts, S.callee_at(b, ct[1]))
-                if w is not None and max(w) <= len(ct[2]):
-                    ops = (ct[2][w[0] - 1], ct[2][w[1] - 1])
-            if ops is not None:
-                x = operand_roles(prog, facts, b, ops[0], acc)
-                y = operand_roles(prog, facts, b, ops[1], acc)
-                cond_info[ct] = (x, y, cb)
-    for ct, (x, y, cb) in cond_info.items():
-        for a in x:
-            for c in y:
-                pair = (a, c)
-                if a.startswith("ACC") and not c.startswith("ACC"):
-                    pair = (c, a)
-                if "DEP" in pair or "ACC-ID" in pair:
-                    dep_pairs.add(pair)
-                else:
-                    atomic.add(pair)
+            x = m.fc_operand(ct[2][0])
+            y = m.fc_operand(ct[2][1])
+            info[ct] = (x, y)
+            for (ra, ia) in x:
+                for (rb, ib) in y:
+                    pair = (ra, rb)
+                    if ra.startswith("ACC") and not rb.startswith("ACC"):
+                        pair = (rb, ra)
+                    if "DEP" in pair or "ACC-ID" in pair:
+                        dep_pairs.add(pair)
+                    else:
+                        atomic.add(pair)
+            for (r, idx) in x + y:
+                if r.startswith("ACC"):
+                    if not (len(idx) == 2 and len(stage_par) == 1 and Q.strip(ev, idx[0]) == ("param", stage_par[0]) and Q.strip(ev, idx[1]) == G.elem):
+                        slot_problems.append("an operand from the %s table is indexed by %s (expected [stage][group] of the group being tested)" % (r, [Q.strip(ev, i)[:2] for i in idx]))
     expected = set([("NEW-W", "ACC-W"), ("NEW-W", "ACC-R"), ("NEW-R", "ACC-W")])
-    site = b.loc()
     if "matrix" in want:
         missing = expected - atomic
         report.ob(rule, "find_conflict/predicate/complete", not missing,
                   "resource intersections tested: %s" % sorted(atomic) if not missing else
-                  "the group predicate never compares %s: a conflicting system can be placed beside the group" % sorted(missing), site=site, config=config)
+                  "no group is ever tested for %s: a conflicting system can be placed beside the group" % sorted(missing), site=site, config=config)
     if "exact" in want:
         extra = atomic - expected
         report.ob(rule, "find_conflict/predicate/exact", not extra,
                   "no intersection beyond W/W, W/R, R/W is tested" if not extra else
-                  "the group predicate also treats %s as a conflict (needless serialisation)" % sorted(extra), site=site, config=config)
+                  "a group also counts as conflicting on %s (needless serialisation)" % sorted(extra), site=site, config=config)
     if "dephit" in want:
         report.ob(rule, "find_conflict/predicate/dep-pair", dep_pairs == set([("DEP", "ACC-ID")]),
                   "dependency intersection tested: %s (expected pending dependencies x ids of the group)" % sorted(dep_pairs), site=site, config=config)
-    # decision: true iff any condition is true; the dependency condition sets the captured flag
-    res_conds = [ct for ct, (x, y, cb) in cond_info.items() if not ("DEP" in x | y or "ACC-ID" in x | y)]
-    dep_conds = [ct for ct, (x, y, cb) in cond_info.items() if ("DEP" in x | y or "ACC-ID" in x | y)]
+    is_res = lambda ct: not any("DEP" in (r,) or r == "ACC-ID" for r, _ in info[ct][0] + info[ct][1])
+    res_conds = [ct for ct in info if is_res(ct)]
+    dep_conds = [ct for ct in info if not is_res(ct)]
     bad = []
-    flagged_ok = True
-    n_ret = 0
-    for p in paths:
-        if p.end != "return":
+    n_ways = 0
+    for it in G.iters:
+        if it.end == "done":
             continue
-        n_ret += 1
-        vals = dict((ct, cv) for (ct, cv, cn, cb) in p.conds)
+        if it.end != "continue":
+            if it.end in ("break", "return"):
+                bad.append("the scan over the groups can stop early (%s)" % it.end)
+            continue
+        n_ways += 1
+        vals = dict((ct, cv) for (ct, cv, cn, cs) in it.conds)
         any_res = any(vals.get(c) == 1 for c in res_conds)
         any_dep = any(vals.get(c) == 1 for c in dep_conds)
-        stores = [e for e in p.effects if e[0] == "store" and e[2][0] == "upvar"]
-        # conditions of this path that are not recognised check_intersection calls (e.g. a helper
-        # introduced by a refactoring): the "nothing intersects -> false" row cannot be judged then
-        unknown = [ct for (ct, cv, cn, cb) in p.conds if ct not in cond_info and ct[0] in ("call", "bin", "un")]
-        if p.ret not in (("int", 0), ("int", 1)):
-            if "matrix" in want or "dephit" in want:
-                bad.append("a path returns a non-constant %s" % (p.ret[:2],))
-            continue
-        if "matrix" in want and any_res and p.ret != ("int", 1):
-            bad.append("a path on which a resource intersection is non-empty returns false")
+        unknown = [ct for (ct, cv, cn, cs) in it.conds if ct not in info and ct[0] in ("call", "bin", "un")]
+        counted = [k for k in m.acc_keys if it.updates.get(k) != ("lvar", G.id, k)]
+        well = all(Q.is_call(ev, it.updates[k], "add") and tuple(Q.strip(ev, a) for a in it.updates[k][2]) == (("lvar", G.id, k), G.elem) for k in counted)
+        flagged = [k for k in m.flag_keys if it.updates.get(k) == ("int", 1)]
+        cleared = [k for k in m.flag_keys if it.updates.get(k) == ("int", 0)]
+        if counted and not well and ("matrix" in want or "dephit" in want):
+            bad.append("a conflicting group is not recorded as Conflict::add(so far, this group)")
+        if "matrix" in want and any_res and not counted:
+            bad.append("a group whose resources intersect is not counted as conflicting")
         if "dephit" in want:
-            if any_dep and p.ret != ("int", 1):
+            if any_dep and not counted:
                 bad.append("a group holding a pending dependency is not counted as conflicting")
-            if any_dep and not any_res and not any(s_[3] == ("int", 1) for s_ in stores):
-                bad.append("a dependency hit does not set the captured flag")
-            if stores and not any_dep:
-                bad.append("the captured flag is written on a path without a dependency hit")
-                flagged_ok = False
-        if "exact" in want and not any_res and not any_dep and not unknown and p.ret != ("int", 0):
-            bad.append("a path without any intersection returns true")
-    report.ob(rule, "find_conflict/predicate/decision", not bad and (n_ret >= 4 or not ("matrix" in want or "dephit" in want)),
-              "; ".join(sorted(set(bad))) if bad else "predicate is true exactly when one of the tested intersections is non-empty (%d paths)" % n_ret,
+            if any_dep and not any_res and not flagged:
+                bad.append("a dependency hit does not set the dependency flag")
+            if flagged and not any_dep:
+                bad.append("the dependency flag is set on a path without a dependency hit")
+            if cleared:
+                bad.append("the dependency flag is cleared inside the scan")
+        if "exact" in want and not any_res and not any_dep and not unknown and counted:
+            bad.append("a group that intersects nothing is counted as conflicting")
+    if ("matrix" in want or "dephit" in want) and len(m.acc_keys) != 1:
+        bad.append("expected one running verdict in the scan over the groups, found %d" % len(m.acc_keys))
+    if "dephit" in want and len(m.flag_keys) != 1:
+        bad.append("expected one dependency flag in the scan over the groups, found %d" % len(m.flag_keys))
+    report.ob(rule, "find_conflict/predicate/decision", not bad and (n_ways >= 4 or not ("matrix" in want or "dephit" in want)),
+              "; ".join(sorted(set(bad))) if bad else "a group is counted exactly when one of the tested intersections is non-empty (%d ways through one iteration)" % n_ways,
               site=site, config=config)
     if "index" in want:
-        # all accumulated operands are taken at [stage][group] of this very group
-        problems = []
-        for ct, (x, y, cb) in cond_info.items():
-            for s_ in subterms(ct):
-                if s_[0] == "call" and S.callee_at(b, s_[1]).name in ("index", "index_mut") and not S.callee_at(b, s_[1]).local:
-                    fields, idx, base = S.table_access(b, s_)
-                    if base[0] == "upvar" and base[1] != "new_dep":
-                        if idx != [("upvar", "stage"), ("param", 2)]:
-                            problems.append("operand %s is indexed by %s (expected [stage][group])" % (base[1], idx))
-        report.ob(rule, "find_conflict/predicate/same-slot", not problems, "; ".join(problems) if problems else
-                  "every accumulated operand is table[stage][group] for the predicate's own group", site=site, config=config)
-        # captures map to find_conflict's parameters
-        cr = prog.creation(b)
-        ok = False
-        detail = "closure creation not found"
-        if cr:
-            parent, agg, dest, _ = cr
-            caps = dict(zip(agg[4], agg[3]))
-            want_caps = {"ids": ("param", 1), "reads": ("param", 2), "writes": ("param", 3), "stage": ("param", 4)}
-            ok = all(caps.get(k) == v for k, v in want_caps.items())
-            detail = "predicate captures (ids, reads, writes, stage) = find_conflict's parameters" if ok else "captures %s" % caps
-        report.ob(rule, "find_conflict/predicate/captures", ok, detail, site=site, config=config)
-        # call site passes the builder's own tables and the stage being evaluated
-        it = facts.one(A.SB + "::insertion_target")
-        scan = None
-        for c in facts.closures_of(it, False):
-            for bb, t in c.normal_calls():
-                if Callee(t["func"]).key == fc.key:
-                    scan = (c, bb)
-        if scan is None:
-            raise AnchorError("no closure of insertion_target calls find_conflict")
-        c, bb = scan
-        report.touched(c, config)
-        args = prog.bt(c).call_args(bb)
-        tabs = []
-        for a in args[:3]:
-            fields, idx, base = S.table_access(c, a)
-            tabs.append((S.crate_fields(fields), base))
-        ok = (tabs[0] == ([(A.SB, acc["ID"])], ("upvar", "self")) and tabs[1] == ([(A.SB, acc["R"])], ("upvar", "self"))
-              and tabs[2] == ([(A.SB, acc["W"])], ("upvar", "self")) and args[3] == ("param", 2))
-        r5 = operand_roles(prog, facts, c, args[4], acc)
-        r6 = operand_roles(prog, facts, c, args[5], acc)
-        r7 = operand_roles(prog, facts, c, args[6], acc)
-        ok = ok and r5 == set(["NEW-R"]) and r6 == set(["NEW-W"]) and r7 == set(["DEP"])
+        report.ob(rule, "find_conflict/predicate/same-slot", not slot_problems, "; ".join(sorted(set(slot_problems))) if slot_problems else
+                  "every accumulated operand is table[stage][group] for the group being tested", site=site, config=config)
+        roles = [m.fc_role.get(i) for i in sorted(m.fc_role)]
+        need = ["ACC-ID", "ACC-R", "ACC-W", "STAGE", "NEW-R", "NEW-W", "DEP"]
+        ok = sorted(roles) == sorted(need)
         report.ob(rule, "insertion_target/find_conflict-args", ok,
-                  "find_conflict(self.ids, self.reads, self.writes, stage, declared reads, declared writes, pending deps)" if ok else
-                  "find_conflict is called with %s, stage=%s, roles %s/%s/%s" % (tabs, args[3], sorted(r5), sorted(r6), sorted(r7)), site=c.loc(bb), config=config)
+                  "find_conflict receives the builder's id / read / write tables, the stage being judged, the declared reads and writes and the pending dependencies" if ok else
+                  "find_conflict is called with arguments of roles %s (expected one each of %s)" % (roles, need), site=m.it_ev.loc(m.fc_call[1]), config=config)
+        roles_it = [m.it_role.get(i) for i in sorted(m.it_role)]
+        ok = all(r in roles_it for r in ("SELF", "NEW-R", "NEW-W", "DEP")) and roles_it.count("NEW-R") == 1 and roles_it.count("NEW-W") == 1
+        report.ob(rule, "insert/insertion_target-args", ok,
+                  "insertion_target receives Accessor::reads(), Accessor::writes() of the system and its dependency list" if ok else
+                  "insertion_target is called with arguments of roles %s" % roles_it, site=m.ins.loc(), config=config)
 
 
 # ------------------------------------------------------------------ ALLGROUPS
 
-def allgroups(ctx, report, rule, facts, config):
-    prog = ctx.program(facts)
-    fc = facts.one(A.SB + "::find_conflict")
-    bt = prog.bt(fc)
-    report.touched(fc, config)
-    folds = [bb for bb, t in fc.normal_calls() if Callee(t["func"]).name == "fold"]
-    ok = len(folds) == 1
-    detail = "%d fold call(s)" % len(folds)
-    if ok:
-        a = bt.call_args(folds[0])
-        recv, init, f = a
-        okf = f[0] == "fnref" and f[1] == facts.one(A.CONFLICT + "::add").key
-        oki = init[0] == "agg" and init[2] == A.CONFLICT + "::None"
-        okr = False
-        rng = None
-        if _is_call(fc, recv, "filter") and S.callee_at(fc, recv[1]).trait in A.ITERATOR:
-            rng = recv[2][0]
-            if rng[0] == "agg" and rng[2] == "std::ops::Range::Range" and rng[3][0] == ("int", 0):
-                end = rng[3][1]
-                if _is_call(fc, end, "len"):
-                    fields, idx, base = S.table_access(fc, end[2][0])
-                    okr = base == ("param", 1) and idx == [("param", 4)]
-        ok = okf and oki and okr
-        detail = ("groups are folded over 0..len(ids[stage]) with filter(predicate).fold(Conflict::None, Conflict::add)" if ok else
-                  "the scan over the groups of a stage is not `(0..ids[stage].len()).filter(pred).fold(None, add)`: range %s, init ok=%s, add ok=%s" % (rng, oki, okf))
-    report.ob(rule, "find_conflict/all-groups", ok, detail, site=fc.loc(folds[0]) if folds else fc.loc(), config=config)
-    # Conflict::add table
+def conflict_add_table(ctx, report, rule, facts, config):
     add = facts.one(A.CONFLICT + "::add")
     report.touched(add, config)
-    table = {}
-    for p in enumerate_paths(add, facts):
-        if p.end != "return":
+    ev, ends = Q.sem(ctx, facts, A.CONFLICT + "::add")
+    problems = []
+    seen = set()
+    for e in ends:
+        if e.kind != "return":
+            if e.kind == "diverge":
+                problems.append("Conflict::add can panic")
             continue
-        for (ct, cv, cn, cb) in p.conds:
-            if ct[0] == "discr" and ct[1] == ("param", 1):
-                table[cn] = p.ret
-    want_ok = (table.get("None", ())[:3] == ("agg", "adt", A.CONFLICT + "::Single") and table.get("None")[3] == (("param", 2),)
-               and table.get("Single", ())[:3] == ("agg", "adt", A.CONFLICT + "::Multiple")
-               and table.get("Multiple", ())[:3] == ("agg", "adt", A.CONFLICT + "::Multiple"))
-    report.ob(rule, "Conflict::add/table", want_ok, "None->Single(group), Single->Multiple, Multiple->Multiple" if want_ok else
-              "Conflict::add maps %s" % dict((k, v[2] if v and v[0] == "agg" else v) for k, v in table.items()), site=add.loc(), config=config)
+        v = e.path.variant(("param", 1))
+        names = set(v.split("|")) if v else set(["None", "Single", "Multiple"])
+        seen |= names
+        r = e.ret
+        if names == set(["None"]):
+            if not (r[0] == "agg" and r[2] == A.CONFLICT + "::Single" and Q.strip(ev, r[3][0]) == ("param", 2)):
+                problems.append("None is not mapped to Single(group)")
+        elif "None" in names:
+            problems.append("None shares a path with %s" % sorted(names - set(["None"])))
+        else:
+            if not (r[0] == "agg" and r[2] == A.CONFLICT + "::Multiple"):
+                problems.append("%s is not mapped to Multiple" % "/".join(sorted(names)))
+    if seen != set(["None", "Single", "Multiple"]):
+        problems.append("not every variant is handled (%s)" % sorted(seen))
+    report.ob(rule, "Conflict::add/table", not problems, "None->Single(group), Single->Multiple, Multiple->Multiple" if not problems else
+              "; ".join(sorted(set(problems))), site=add.loc(), config=config)
+
+
+def allgroups(ctx, report, rule, facts, config):
+    m = model(ctx, facts)
+    ev = m.fc_ev
+    G = m.group
+    report.touched(m.fc, config)
+    site = Q.site_of(ev, G) or m.fc.loc()
+    problems = []
+    rng = Q.range_of(G)
+    if rng is None:
+        problems.append("the groups are not scanned as a forward integer range (%s)" % (G.source[:3] if G.source else None,))
+    else:
+        lo, hi = rng
+        okr = lo == ("int", 0)
+        if okr and Q.is_call(ev, hi, "len"):
+            fields, idx, base = Q.table_access(ev, hi[2][0])
+            okr = base[0] == "param" and m.fc_role.get(base[1]) == "ACC-ID" and len(idx) == 1 and Q.strip(ev, idx[0])[0] == "param" and m.fc_role.get(Q.strip(ev, idx[0])[1]) == "STAGE"
+        else:
+            okr = False
+        if not okr:
+            problems.append("the scan does not run over 0..ids[stage].len()")
+    if G.stages and [n for n, _ in G.stages if n not in ("filter",)]:
+        problems.append("the group indices pass through %s before being tested" % [n for n, _ in G.stages])
+    if not Q.is_full(G):
+        problems.append("the scan over the groups can stop before the last group")
+    for k in m.acc_keys:
+        init = G.carried.get(k)
+        if not (init and init[0] == "agg" and init[2] == A.CONFLICT + "::None"):
+            problems.append("the running verdict does not start as Conflict::None")
+    report.ob(rule, "find_conflict/all-groups", not problems, "; ".join(sorted(set(problems))) if problems else
+              "every group 0..ids[stage].len() is tested, starting from Conflict::None and adding each conflicting group", site=site, config=config)
+    conflict_add_table(ctx, report, rule, facts, config)
 
 
 # ------------------------------------------------------------------ DEPGATE
 
 def depgate(ctx, report, rule, facts, config):
-    prog = ctx.program(facts)
-    fc = facts.one(A.SB + "::find_conflict")
-    report.touched(fc, config)
-    paths = [p for p in enumerate_paths(fc, facts) if p.end == "return"]
+    """Multiple iff (a dependency was hit and more than one is pending) or (none hit and some pending); else the scan's verdict."""
+    m = model(ctx, facts)
+    ev = m.fc_ev
+    G = m.group
+    report.touched(m.fc, config)
     problems = []
+    dep_par = [i for i, r in m.fc_role.items() if r == "DEP"]
+    flag_terms = [("lexit", G.id, k) for k in m.flag_keys]
+    acc_terms = [("lexit", G.id, k) for k in m.acc_keys]
     rows = []
-    for p in paths:
-        flag = None
-        gt1 = None
-        empty = None
-        for (ct, cv, cn, cb) in p.conds:
-            if ct[0] == "cell":
-                flag = cv
-            elif ct[0] == "bin" and ct[1] == "Gt" and _is_call(fc, ct[2], "len") and ct[2][2] == (("param", 7),) and ct[3] == ("int", 1):
-                gt1 = cv
-            elif _is_call(fc, ct, "is_empty") and ct[2] == (("param", 7),):
-                empty = cv
-            elif ct[0] == "bin" or ct[0] == "call":
-                problems.append("unrecognised condition %s" % (ct[:2],))
-        multiple = p.ret[0] == "agg" and p.ret[2] == A.CONFLICT + "::Multiple"
-        folded = _is_call(fc, p.ret, "fold")
-        rows.append((flag, gt1, empty, "Multiple" if multiple else ("fold" if folded else "?")))
-        if flag is None:
-            problems.append("a path does not test the dependency flag")
+
+    def is_dep(t):
+        return len(dep_par) == 1 and Q.strip(ev, t) == ("param", dep_par[0])
+
+    for e in m.fc_ends:
+        if e.kind != "return":
+            if e.kind == "diverge" and not any(ev_[0] == "loop" for ev_ in e.path.events):
+                continue  # bounds / overflow panics before the scan are outside this rule
+            if e.kind == "diverge":
+                problems.append("find_conflict can panic after the scan")
             continue
-        expect_multiple = (flag == 1 and gt1 == 1) or (flag == 0 and empty == 0)
-        if flag == 1 and gt1 is None:
-            problems.append("with the flag set, `len(pending) > 1` is not tested")
-        if flag == 0 and empty is None:
-            problems.append("with the flag clear, `pending.is_empty()` is not tested")
-        if expect_multiple and not multiple:
-            problems.append("a stage that must be rejected (flag=%s, len>1=%s, empty=%s) is not reported as Multiple" % (flag, gt1, empty))
-        if not expect_multiple and not folded:
-            problems.append("an acceptable stage (flag=%s, len>1=%s, empty=%s) does not return the fold result" % (flag, gt1, empty))
-    # the flag cell is the one captured by the predicate as its only captured &mut bool
-    pred = facts.closures_of(fc, False)[0]
-    cr = prog.creation(pred)
-    if cr:
-        parent, agg, dest, _ = cr
-        muts = [n for n, c in zip(agg[4], pred.captures) if c["ty"] == "bool"]
-        if len(muts) != 1:
-            problems.append("predicate captures %d bool flag(s)" % len(muts))
-    report.ob(rule, "find_conflict/gate", not problems and len(paths) == 4, "; ".join(sorted(set(problems))) if problems else
-              "Multiple iff (hit and len(pending) > 1) or (no hit and pending non-empty); else the fold result; rows %s" % rows, site=fc.loc(), config=config)
+        flag = None
+        cons = []  # predicates on n = number of pending dependencies
+        for (ct, cv, cn, cs) in e.path.conds:
+            if ct in flag_terms:
+                flag = cv
+            elif Q.is_call(ev, ct, "is_empty") and is_dep(ct[2][0]):
+                cons.append(("Eq", 0) if cv == 1 else ("Ne", 0))
+            else:
+                nc = Q.norm_cmp(ct, cv)
+                if nc is not None and nc[2][0] == "int" and ((Q.is_call(ev, nc[1], "len") and is_dep(nc[1][2][0])) or (nc[1][0] == "len" and is_dep(nc[1][1]))):
+                    cons.append((nc[0], nc[2][1]))
+                    if nc[2][1] > 3:
+                        problems.append("the pending list is compared with %d" % nc[2][1])
+                elif ct[0] == "discr" or ct in acc_terms:
+                    continue
+                else:
+                    problems.append("unrecognised condition after the scan (%s)" % (ct[:2],))
+        if e.ret[0] == "agg" and e.ret[2] == A.CONFLICT + "::Multiple":
+            res = "Multiple"
+        elif e.ret in acc_terms:
+            res = "scan"
+        else:
+            res = "?"
+            problems.append("find_conflict returns something else than Multiple or the scan's verdict")
+        rows.append((flag, cons, res))
+    for f in (0, 1):
+        for n in (0, 1, 2, 3):
+            expect = "Multiple" if ((f == 1 and n >= 2) or (f == 0 and n >= 1)) else "scan"
+            hit = [r for r in rows if (r[0] is None or r[0] == f) and all(Q.holds_for(op, n, k) for op, k in r[1])]
+            if not hit:
+                problems.append("no path for (dependency hit=%d, %d pending)" % (f, n))
+            for r in hit:
+                if r[2] != expect:
+                    problems.append("with dependency hit=%d and %d pending dependencies the result is %s (expected %s)" % (
+                        f, n, "Multiple" if r[2] == "Multiple" else "the scan's verdict", "Multiple" if expect == "Multiple" else "the scan's verdict"))
+    report.ob(rule, "find_conflict/gate", not problems, "; ".join(sorted(set(problems))) if problems else
+              "Multiple iff (hit and more than one pending) or (no hit and some pending); else the scan's verdict (%d paths, 8 cases)" % len(rows), site=m.fc.loc(), config=config)
 
 
-# ------------------------------------------------------------------ ACCEPT / CAP / chain
+# ------------------------------------------------------------------ ACCEPT / CAP / EARLIEST
 
-def chain(ctx, facts):
-    """The iterator chain of insertion_target: returns dict with the range
-    term, the three closures and the adaptor names in order."""
-    prog = ctx.program(facts)
-    it = facts.one(A.SB + "::insertion_target")
-    bt = prog.bt(it)
-    ret = bt.local(0)
-    names = []
-    t = ret
-    clos = []
-    default = None
-    while isinstance(t, tuple) and t and t[0] == "call":
-        c = bt.callee(t[1])
-        if c.local:
-            break
-        names.append(c.name)
-        for a in t[2][1:]:
-            if a[0] == "agg" and a[1] == "closure":
-                clos.append((c.name, a[2]))
-            elif a[0] == "closure":
-                clos.append((c.name, a[1]))
-            elif c.name in ("unwrap_or",):
-                default = a
-        t = t[2][0] if t[2] else None
-    return {"body": it, "bt": bt, "names": list(reversed(names)), "closures": list(reversed(clos)), "range": t, "default": default, "ret": ret}
+def _lt_bound(ev, atom, value, is_len):
+    """If the decided comparison is about `len` (recognised by is_len): ('lt', K) or ('ge', K) - the relation that holds."""
+    nc = Q.norm_cmp(atom, value)
+    if nc is None or nc[2][0] != "int" or not is_len(nc[1]):
+        return None
+    op, k = nc[0], nc[2][1]
+    if op == "Lt":
+        return ("lt", k)
+    if op == "Le":
+        return ("lt", k + 1)
+    if op == "Ge":
+        return ("ge", k)
+    if op == "Gt":
+        return ("ge", k + 1)
+    return None
+
+
+def _scan_exit_rets(m):
+    """way index -> set of function results on the ends that leave the scan loop that way."""
+    S_ids = set(id(L) for L in m.scans)
+    out = {}
+    for e in m.it_ends:
+        for ev_ in e.path.events:
+            if ev_[0] == "loop" and id(ev_[1]) in S_ids:
+                out.setdefault((id(ev_[1]), ev_[2]), []).append(e)
+    return out
 
 
 def accept(ctx, report, rule, facts, config, want=("chain", "accept", "cap")):
-    prog = ctx.program(facts)
-    ch = chain(ctx, facts)
-    it = ch["body"]
-    report.touched(it, config)
-    site = it.loc()
-    if "chain" in want:
-        ok = ch["names"] == ["map", "find", "map", "unwrap_or"]
-        report.ob(rule, "insertion_target/chain", ok,
-                  "candidates: range.map(evaluate).find(accept).map(to_target).unwrap_or(NewStage)" if ok else
-                  "the candidate scan is %s (expected map, find, map, unwrap_or: the first accepted stage wins)" % ch["names"], site=site, config=config)
-        d = ch["default"]
-        report.ob(rule, "insertion_target/fallback", bool(d) and d[0] == "agg" and d[2] == A.TARGET + "::NewStage",
-                  "fallback is InsertionTarget::NewStage", site=site, config=config)
-        rng = ch["range"]
-        okr = isinstance(rng, tuple) and rng[0] == "agg" and rng[2] == "std::ops::Range::Range"
-        report.ob(rule, "insertion_target/forward-range", okr, "candidates come from a forward half-open Range" if okr else "candidate source is %s" % (rng[:3] if isinstance(rng, tuple) else rng,), site=site, config=config)
-    cl = dict((i, facts.bodies.get(k)) for i, (n, k) in enumerate(ch["closures"]))
-    if len(cl) != 3 or any(v is None for v in cl.values()):
-        raise AnchorError("insertion_target is expected to use three closures (evaluate, accept, to_target), found %s" % ch["closures"])
-    ev, acc_c, to_t = cl[0], cl[1], cl[2]
-    if "accept" in want or "cap" in want or "accept-sound" in want:
-        report.touched(acc_c, config)
-        table = {}
-        for p in enumerate_paths(acc_c, facts):
-            if p.end != "return":
+    m = model(ctx, facts)
+    ev = m.it_ev
+    report.touched(m.it, config)
+    exit_ends = _scan_exit_rets(m)
+    fc = m.fc_call
+    k_found = None
+    for S in m.scans:
+        site = Q.site_of(ev, S) or m.it.loc()
+        sound = []
+        complete = []
+        chain_pr = []
+        to_target = []
+        done_idx = [i for i, it in enumerate(S.iters) if it.end == "done"]
+        if Q.range_of(S) is None:
+            chain_pr.append("candidate stages do not come from a forward half-open range (%s)" % (S.source[:3] if S.source else S.kind,))
+        if S.stages and [n for n, _ in S.stages if n != "map"]:
+            chain_pr.append("candidates pass through %s" % [n for n, _ in S.stages])
+        # fallback
+        for i in done_idx:
+            for e in exit_ends.get((id(S), i), []):
+                if e.kind == "return" and not (e.ret[0] == "agg" and e.ret[2] == A.TARGET + "::NewStage"):
+                    chain_pr.append("when no candidate is accepted the result is not NewStage")
+        if not done_idx:
+            chain_pr.append("the scan never runs out of candidates")
+        for i, it in enumerate(S.iters):
+            if it.end == "done":
                 continue
-            variant = None
-            extra = []
-            for (ct, cv, cn, cb) in p.conds:
-                if ct[0] == "discr" and root(ct[1], None)[0] == ("param", 2):
-                    variant = cn
-                else:
-                    extra.append((ct, cv))
-            table.setdefault(variant, []).append((extra, p.ret))
-        problems = []       # completeness: nothing acceptable is rejected for another reason (C10)
-        sound = []          # soundness: nothing with several conflicts is accepted (C01/C02/C03)
-        cap_ok = None
-        if [r for _, r in table.get("None", [])] != [("int", 1)]:
-            problems.append("a stage without any conflicting group is not always accepted")
-        if [r for _, r in table.get("Multiple", [])] != [("int", 0)]:
-            problems.append("a stage with several conflicting groups is not always rejected")
-            sound.append("a stage with several conflicting groups is not always rejected")
-        single = table.get("Single", [])
-        k_found = None
-        for extra, ret in single:
-            lt = [(ct, cv) for ct, cv in extra if ct[0] == "bin" and ct[1] == "Lt"]
-            if len(lt) != 1 or len(extra) != 1:
-                problems.append("Single(g): unexpected guard structure %s" % [c[0][:2] for c in extra])
+            v = it.path.variant(fc)
+            names = set(v.split("|")) if v else set(["None", "Single", "Multiple"])
+            leaving = it.end in ("break", "return")
+            if it.end == "diverge":
+                if names != set(["Multiple"]) and not _only_arith_panic(it):
+                    complete.append("judging a candidate can panic (%s)" % "/".join(sorted(names)))
                 continue
-            (ct, cv) = lt[0]
-            ln, k = ct[2], ct[3]
-            okl = False
-            if _is_call(acc_c, ln, "len"):
-                fields, idx, base = S.table_access(acc_c, ln[2][0])
-                cf = S.crate_fields(fields)
-                okl = (cf == [(A.SB, "stages"), (A.STAGE, "groups")] and base == ("upvar", "self") and len(idx) == 2
-                       and root(idx[0], None)[0] == ("param", 2) and idx[1][0] == "field" and idx[1][1][0] == "variant" and idx[1][1][2] == "Single")
-            if not okl:
-                problems.append("Single(g): the capacity guard does not measure stages[stage].groups[g].len()")
-            kv = fold_int(k)
-            k_found = kv
-            if cv == 0 and ret != ("int", 0):
-                problems.append("Single(g): a full group is not rejected")
-            if cv == 1:
-                if not (_is_call(acc_c, ret, "improves_balance") and ret[2][0] == ("upvar", "self")):
-                    problems.append("Single(g): with room in the group the verdict is not improves_balance(..)")
+            if leaving:
+                rets = [e for e in exit_ends.get((id(S), i), [])]
+                if "Multiple" in names:
+                    sound.append("a stage with several conflicting groups (or an unmet dependency) can be accepted")
+                elif len(names) != 1:
+                    sound.append("a candidate is accepted without telling `no conflict` from `one conflicting group`")
+                for e in rets:
+                    if e.kind != "return":
+                        if e.kind == "diverge":
+                            to_target.append("accepting a candidate can panic")
+                        continue
+                    r = e.ret
+                    if names == set(["None"]):
+                        if not (r[0] == "agg" and r[2] == A.TARGET + "::Stage" and Q.strip(ev, r[3][0]) == S.elem):
+                            to_target.append("an accepted stage without conflicts is not answered with Stage(that stage)")
+                    elif names == set(["Single"]):
+                        g = ("field", ("variant", fc, "Single"), "0", A.CONFLICT)
+                        if not (r[0] == "agg" and r[2] == A.TARGET + "::Group" and Q.strip(ev, r[3][0]) == S.elem and Q.strip(ev, r[3][1]) == g):
+                            to_target.append("an accepted stage with one conflicting group is not answered with Group(that stage, that group)")
+                if not rets:
+                    to_target.append("an accepting path of the scan does not reach a result")
+            # completeness (C10): None always accepted; Single(g) rejected only by capacity / balance
+            if names == set(["None"]) and not leaving:
+                complete.append("a stage without any conflicting group is not always accepted")
+            if names == set(["Single"]):
+                g = ("field", ("variant", fc, "Single"), "0", A.CONFLICT)
+
+                def is_len(t):
+                    if not Q.is_call(ev, t, "len"):
+                        return False
+                    fields, idx, base = Q.table_access(ev, t[2][0])
+                    cf = Q.crate_fields(fields)
+                    return (cf == [(A.SB, "stages"), (A.STAGE, "groups")] and base == ("param", 1) and len(idx) == 2
+                            and Q.strip(ev, idx[0]) == S.elem and Q.strip(ev, idx[1]) == g)
+
+                room = None
+                balance = None
+                extra = []
+                for (ct, cv, cn, cs) in it.conds:
+                    if ct == ("discr", fc):
+                        continue
+                    b = _lt_bound(ev, ct, cv, is_len)
+                    if b is not None:
+                        room = b
+                        continue
+                    if Q.is_call(ev, ct, "improves_balance"):
+                        a = ct[2]
+                        if a[0] == ("param", 1) and Q.strip(ev, a[1]) == S.elem and Q.strip(ev, a[2]) == g:
+                            balance = cv
+                        else:
+                            extra.append("improves_balance is not asked about (stage, group)")
+                        continue
+                    extra.append("unexpected condition %s" % (ct[:2],))
+                if extra:
+                    complete.extend("Single(g): " + x for x in extra)
+                if leaving:
+                    if not (room and room[0] == "lt"):
+                        complete.append("Single(g): a group is joined without checking that it has room")
+                    else:
+                        k_found = room[1] if k_found is None else max(k_found, room[1])
+                    if balance != 1:
+                        complete.append("Single(g): a group is joined without improves_balance(stage, g) holding")
                 else:
-                    a = ret[2]
-                    if not (root(a[1], None)[0] == ("param", 2) and a[2][0] == "field" and a[2][1][0] == "variant"):
-                        problems.append("Single(g): improves_balance is not asked about (stage, g)")
-        if len(single) != 2:
-            problems.append("Single(g): expected two outcomes (full / has room), found %d" % len(single))
-        if "accept" in want:
-            report.ob(rule, "insertion_target/accept-table", not problems, "; ".join(sorted(set(problems))) if problems else
-                      "None -> accept; Multiple -> reject; Single(g) -> len(groups[g]) < K && improves_balance(stage, g)", site=acc_c.loc(), config=config)
-        if "accept-sound" in want:
+                    if not ((room and room[0] == "ge") or balance == 0):
+                        complete.append("Single(g): the candidate is rejected although the group has room and the balance improves")
+        if "chain" in want:
+            report.ob(rule, "insertion_target/scan", not chain_pr, "; ".join(sorted(set(chain_pr))) if chain_pr else
+                      "candidates are judged in ascending order, the first accepted one is the answer, NewStage if none", site=site, config=config)
+        if "accept-sound" in want or "chain" in want:
             report.ob(rule, "insertion_target/accept-sound", not sound, "; ".join(sorted(set(sound))) if sound else
-                      "a stage with several conflicting groups is never accepted", site=acc_c.loc(), config=config)
+                      "a stage with several conflicting groups is never accepted", site=site, config=config)
+            report.ob(rule, "insertion_target/to-target", not to_target, "; ".join(sorted(set(to_target))) if to_target else
+                      "None -> Stage(s); Single(g) -> Group(s, g)", site=site, config=config)
+            _evaluate(m, S, report, rule, site, config)
+        if "accept" in want:
+            report.ob(rule, "insertion_target/accept-table", not complete, "; ".join(sorted(set(complete))) if complete else
+                      "None -> accept; Multiple -> reject; Single(g) -> len(groups[g]) < K && improves_balance(stage, g)", site=site, config=config)
         if "cap" in want:
             caps = set()
             for path_, fld in ((A.STAGE, "groups"), (A.SB, "ids")):
                 ty = facts.adt_field(path_, fld)["ty"]
-                import re
-                m = re.findall(r"arrayvec::ArrayVec<.*, (\w+)>; \d+\]>", ty)
-                for x in m:
+                for x in re.findall(r"arrayvec::ArrayVec<.*, (\w+)>; \d+\]>", ty):
                     if x.isdigit():
                         caps.add(int(x))
                     else:
                         for cpath, cst in facts.consts.items():
                             if cpath.rsplit("::", 1)[-1] == x and "int" in cst:
                                 caps.add(cst["int"])
-            ok = k_found is not None and len(caps) == 1 and k_found <= min(caps) - 1 and not [p_ for p_ in problems if "capacity" in p_ or "full group" in p_]
+            ok = k_found is not None and len(caps) == 1 and k_found <= min(caps) - 1 and not [p_ for p_ in complete if "has room" in p_]
             report.ob(rule, "insertion_target/capacity", ok,
-                      "a group is joined only while len < %s; ArrayVec capacity of both group tables is %s" % (k_found, sorted(caps)),
-                      site=acc_c.loc(), config=config)
-    if "accept" in want or "accept-sound" in want:
-        # to_target: None -> Stage(s), Single(g) -> Group(s, g), Multiple -> unreachable
-        report.touched(to_t, config)
-        table = {}
-        for p in enumerate_paths(to_t, facts):
-            variant = None
-            for (ct, cv, cn, cb) in p.conds:
-                if ct[0] == "discr":
-                    variant = cn
-            table[variant] = (p.end, p.ret)
-        pr = []
-        e, r = table.get("None", (None, None))
-        if not (e == "return" and r[0] == "agg" and r[2] == A.TARGET + "::Stage" and root(r[3][0], None) == (("param", 2), ["#0"])):
-            pr.append("None is not mapped to Stage(stage)")
-        e, r = table.get("Single", (None, None))
-        if not (e == "return" and r[0] == "agg" and r[2] == A.TARGET + "::Group" and root(r[3][0], None) == (("param", 2), ["#0"])
-                and r[3][1][0] == "field" and r[3][1][1][0] == "variant" and r[3][1][1][2] == "Single"):
-            pr.append("Single(g) is not mapped to Group(stage, g)")
-        e, r = table.get("Multiple", (None, None))
-        if e != "diverge":
-            pr.append("Multiple is mapped to a target")
-        report.ob(rule, "insertion_target/to-target", not pr, "; ".join(pr) if pr else "None -> Stage(s); Single(g) -> Group(s, g); Multiple never reaches here", site=to_t.loc(), config=config)
-        # evaluate: (stage, find_conflict(.., stage, ..)) for the closure's own stage
-        report.touched(ev, config)
-        ps = [p for p in enumerate_paths(ev, facts) if p.end == "return"]
-        ok = len(ps) == 1
-        if ok:
-            r = ps[0].ret
-            ok = (r[0] == "agg" and r[1] == "tuple" and r[3][0] == ("param", 2) and _is_call(ev, r[3][1], "find_conflict") and r[3][1][2][3] == ("param", 2))
-        report.ob(rule, "insertion_target/evaluate", ok, "each candidate is (stage, find_conflict(.., stage, ..))" if ok else "the evaluated pair does not tie the verdict to its own stage", site=ev.loc(), config=config)
-    return ch
+                      "a group is joined only while len < %s; ArrayVec capacity of both group tables is %s" % (k_found, sorted(caps)), site=site, config=config)
+    return m
+
+
+def _only_arith_panic(it):
+    return not [e for e in it.path.events if e[0] == "panic"] and not [e for e in it.path.events if e[0] == "call" and e[2].name in ("panic", "panic_fmt", "unreachable", "begin_panic")]
+
+
+def _evaluate(m, S, report, rule, site, config):
+    """Every candidate is judged by find_conflict about itself."""
+    ev = m.it_ev
+    pr = []
+    stage_par = [i for i, r in m.fc_role.items() if r == "STAGE"]
+    if len(stage_par) != 1:
+        pr.append("find_conflict is not told which stage is judged")
+    for it in S.iters:
+        if it.end == "done":
+            continue
+        n = len(Q.calls_in(it.path.events, lambda c: c.key == m.fc.key))
+        if n != 1:
+            pr.append("a candidate is judged %d times" % n)
+    report.ob(rule, "insertion_target/evaluate", not pr, "each candidate stage is judged once, by find_conflict(.., that stage, ..)" if not pr else "; ".join(sorted(set(pr))), site=site, config=config)
 
 
 def fold_int(t):
@@ -509,6 +610,8 @@ def fold_int(t):
         return t[1]
     if t[0] == "field" and t[2] == "0" and isinstance(t[1], tuple) and t[1][0] == "bin":
         return fold_int(t[1])
+    if t[0] == "agg" and t[1] == "tuple" and t[3] and t[3][0][0] == "int":
+        return t[3][0][1]
     if t[0] == "bin":
         a, b = fold_int(t[2]), fold_int(t[3])
         if a is None or b is None:
@@ -535,22 +638,25 @@ def fold_like(t, base, inc):
 # ------------------------------------------------------------------ barrier rules
 
 def barrier(ctx, report, rule, facts, config, want=("set", "fwd", "range")):
-    prog = ctx.program(facts)
     if "set" in want:
         ab = facts.one(A.SB + "::add_barrier")
         report.touched(ab, config)
-        ps = [p for p in enumerate_paths(ab, facts) if p.end == "return"]
-        ok = len(ps) == 1
-        detail = "%d path(s)" % len(ps)
-        if ok:
-            # stores into other fields are not this rule's business
-            stores = [e for e in ps[0].effects if e[0] == "store" and e[2] == ("field", ("param", 1), "barrier", A.SB)]
-            ok = len(stores) == 1
-            if ok:
+        ev, ends = Q.sem(ctx, facts, A.SB + "::add_barrier")
+        rets = _ret_ends(ends)
+        ok = bool(rets)
+        detail = "%d path(s)" % len(rets)
+        for e in rets:
+            stores = [s_ for s_ in e.path.events if s_[0] == "store" and s_[2] == ("field", ("param", 1), "barrier", A.SB)]
+            good = len(stores) == 1
+            if good:
                 v = stores[0][3]
-                fields, idx, base = S.table_access(ab, v[2][0]) if _is_call(ab, v, "len") else ([], [], None)
-                ok = S.crate_fields(fields) == [(A.SB, "stages")] and not idx and base == ("param", 1)
-            detail = "barrier = self.stages.len()" if ok else "add_barrier does not store len(self.stages) into `barrier` (stores: %s)" % [(s_[2], s_[3][:2]) for s_ in stores]
+                fields, idx, base = Q.table_access(ev, v[2][0]) if Q.is_call(ev, v, "len") else ([], [], None)
+                good = Q.crate_fields(fields) == [(A.SB, "stages")] and not idx and base == ("param", 1)
+            if not good:
+                ok = False
+                detail = "add_barrier does not store len(self.stages) into `barrier` on every path (%d store(s))" % len(stores)
+        if ok:
+            detail = "barrier = self.stages.len()"
         report.ob(rule, "StagesBuilder::add_barrier", ok, detail, site=ab.loc(), config=config)
         # only writer of the field
         n = 0
@@ -571,244 +677,239 @@ def barrier(ctx, report, rule, facts, config, want=("set", "fwd", "range")):
                                 report.ob(rule, "barrier-borrowed-mut/%s" % b.qname, False, "field `barrier` is mutably borrowed in %s" % b.qname, site=b.loc(bi), config=config)
         report.floor(rule, "writers of `barrier`", n, 1, config=config)
     if "fwd" in want:
+        sab = facts.one(A.SB + "::add_barrier")
         b = facts.one(A.DB + "::add_barrier")
         report.touched(b, config)
-        bt = prog.bt(b)
-        cs = [bb for bb, t in b.normal_calls() if Callee(t["func"]).key == facts.one(A.SB + "::add_barrier").key
-              and bt.call_args(bb)[0] == ("field", ("param", 1), "stages_builder", A.DB)]
-        cnt = bt.cfg.count(lambda x: x in cs) if cs else (0, 0)
-        report.ob(rule, "DispatcherBuilder::add_barrier", cnt == (1, 1), "forwards to self.stages_builder.add_barrier() min %s / max %s time(s) per call" % cnt, site=b.loc(), config=config)
+        ev, ends = Q.sem(ctx, facts, A.DB + "::add_barrier", opaque=[A.SB + "::add_barrier"])
+        cnts = []
+        for e in _ret_ends(ends):
+            cs = [c for c in Q.calls_in(e.path.events, lambda c: c.key == sab.key, deep=True) if c[3] and c[3][0] == ("field", ("param", 1), "stages_builder", A.DB)]
+            cnts.append(len(cs))
+        ok = bool(cnts) and all(c == 1 for c in cnts)
+        report.ob(rule, "DispatcherBuilder::add_barrier", ok, "forwards to self.stages_builder.add_barrier() %s time(s) per path" % sorted(set(cnts)), site=b.loc(), config=config)
         w = facts.one(A.DB + "::with_barrier")
         report.touched(w, config)
-        bt = prog.bt(w)
-        cs = [bb for bb, t in w.normal_calls() if Callee(t["func"]).key == b.key]
-        cnt = bt.cfg.count(lambda x: x in cs) if cs else (0, 0)
-        report.ob(rule, "DispatcherBuilder::with_barrier", cnt == (1, 1) and bt.local(0) == ("param", 1), "calls add_barrier min %s / max %s time(s) and returns self" % cnt, site=w.loc(), config=config)
+        ev, ends = Q.sem(ctx, facts, A.DB + "::with_barrier", opaque=[A.DB + "::add_barrier", A.SB + "::add_barrier"])
+        cnts = []
+        retself = True
+        for e in _ret_ends(ends):
+            cs = Q.calls_in(e.path.events, lambda c: c.key in (b.key, sab.key), deep=True)
+            cnts.append(len(cs))
+            retself = retself and e.ret == ("param", 1)
+        ok = bool(cnts) and all(c == 1 for c in cnts) and retself
+        report.ob(rule, "DispatcherBuilder::with_barrier", ok, "calls add_barrier %s time(s) and returns self" % sorted(set(cnts)), site=w.loc(), config=config)
     if "range" in want:
-        ch = chain(ctx, facts)
-        it = ch["body"]
-        rng = ch["range"]
-        ok = False
-        detail = "candidate range not recognised: %s" % (rng[:3] if isinstance(rng, tuple) else rng,)
-        if isinstance(rng, tuple) and rng[0] == "agg" and rng[2] == "std::ops::Range::Range":
-            lo, hi = rng[3]
-            oklo = lo == ("field", ("param", 1), "barrier", A.SB)
-            okhi = _is_call(it, hi, "len") and S.table_access(it, hi[2][0])[2] == ("param", 1) and S.crate_fields(S.table_access(it, hi[2][0])[0]) == [(A.SB, "stages")]
-            ok = oklo and okhi
-            detail = "candidate stages are self.barrier..self.stages.len()" if ok else "candidate stages are %s..%s (expected self.barrier..self.stages.len())" % (lo, hi[:2] if isinstance(hi, tuple) else hi)
-        report.ob(rule, "insertion_target/range", ok, detail, site=it.loc(), config=config)
-        # every Stage/Group target index originates from that range: evaluate and to_target pass the stage through (ACCEPT);
-        # here: the only constructions of Stage/Group targets are in the to_target closure
+        m = model(ctx, facts)
+        ev = m.it_ev
+        for S in m.scans:
+            rng = Q.range_of(S)
+            ok = False
+            detail = "candidate range not recognised: %s" % (S.source[:3] if isinstance(S.source, tuple) else S.source,)
+            if rng is not None:
+                lo, hi = rng
+                oklo = lo == ("field", ("param", 1), "barrier", A.SB)
+                okhi = False
+                if Q.is_call(ev, hi, "len"):
+                    fields, idx, base = Q.table_access(ev, hi[2][0])
+                    okhi = base == ("param", 1) and not idx and Q.crate_fields(fields) == [(A.SB, "stages")]
+                ok = oklo and okhi
+                detail = "candidate stages are self.barrier..self.stages.len()" if ok else "candidate stages are %s..%s (expected self.barrier..self.stages.len())" % (_short(lo), _short(hi))
+            report.ob(rule, "insertion_target/range", ok, detail, site=Q.site_of(ev, S) or m.it.loc(), config=config)
+        # Stage / Group targets are only built by the code the scan was evaluated from
+        known = set(ev.inlined) | set([m.it.key])
         n = 0
         for b in sorted(facts.bodies.values(), key=lambda b: b.key):
             for bi, blk in enumerate(b.blocks):
                 for st in blk["stmts"]:
                     if st["k"] == "assign" and st["rv"]["k"] == "agg" and st["rv"].get("adt") == A.TARGET and st["rv"]["variant"] in ("Stage", "Group"):
                         n += 1
-                        okb = b.key == ch["closures"][2][1]
-                        report.ob(rule, "target-built/%s/%s" % (b.qname, st["rv"]["variant"]), okb,
+                        report.ob(rule, "target-built/%s/%s" % (b.qname, st["rv"]["variant"]), b.key in known,
                                   "InsertionTarget::%s is constructed in %s" % (st["rv"]["variant"], b.qname), site=b.loc(bi), config=config)
         report.floor(rule, "constructions of Stage/Group targets", n, 2, config=config)
 
 
 # ------------------------------------------------------------------ dependency bookkeeping (C02 / C10)
 
-def _remove_ids_sites(ctx, facts):
-    prog = ctx.program(facts)
-    rid = facts.one(A.SB + "::remove_ids")
-    return rid, facts.callers().get(rid.key, [])
+def _is_rm(m):
+    rid = m.facts.one(A.SB + "::remove_ids")
+    return lambda c: c.key == rid.key
 
 
 def dep_order(ctx, report, rule, facts, config):
-    """C02.ORDER: in the evaluate closure find_conflict(s, .., dep) dominates
-    remove_ids(s, dep): same stage, same list."""
-    prog = ctx.program(facts)
-    ch = chain(ctx, facts)
-    ev = facts.bodies[ch["closures"][0][1]]
-    report.touched(ev, config)
-    bt = prog.bt(ev)
-    fcs = [bb for bb, t in ev.normal_calls() if Callee(t["func"]).name == "find_conflict"]
-    rms = [bb for bb, t in ev.normal_calls() if Callee(t["func"]).name == "remove_ids"]
-    ok = len(fcs) == 1 and len(rms) == 1 and bt.cfg.dominates(fcs[0], rms[0]) and fcs[0] != rms[0]
-    detail = "find_conflict %s, remove_ids %s" % (fcs, rms)
-    if ok:
-        fa = bt.call_args(fcs[0])
-        ra = bt.call_args(rms[0])
-        ok = fa[3] == ra[1] == ("param", 2) and fa[6] == ra[2] == ("upvar", "new_dep") and ra[0] == ("upvar", "self")
-        detail = "the stage is judged against the pending list before its own ids are crossed off (same stage, same list)" if ok else \
-            "find_conflict(stage=%s, dep=%s) vs remove_ids(stage=%s, dep=%s)" % (fa[3], fa[6], ra[1], ra[2])
-    else:
-        detail = "a stage's ids are crossed off the pending list before (or without) judging the stage: " + detail
-    report.ob(rule, "evaluate/find_conflict-before-remove_ids", ok, detail, site=ev.loc(), config=config)
-
-
-def crossoff(ctx, report, rule, facts, config, want=("own-stage", "all-occurrences")):
-    """remove_ids(stage, dep): entries are removed only when equal to an id of
-    ids[stage] (C02.CROSSOFF) and every equal entry goes (C10.ALLOCC)."""
-    prog = ctx.program(facts)
-    rid = facts.one(A.SB + "::remove_ids")
-    report.touched(rid, config)
-    bt = prog.bt(rid)
-    trs = [t for t in traversals(prog, rid) if t.kind == "for"]
-    problems = []
-    tr = None
-    for t_ in trs:
-        fields, idx, base = S.table_access(rid, t_.source)
-        # flatten(iter(ids[stage]))
-        if S.crate_fields(fields) == [(A.SB, "ids")] and base == ("param", 1):
-            tr = t_
-            if idx != [("param", 2)]:
-                problems.append("ids are read from ids[%s], not from the `stage` argument" % (idx,))
-            if not t_.full:
-                problems.append("the ids of the stage are not fully traversed: " + t_.why)
-            if "Flatten<" not in (t_.iter_ty or ""):
-                # accepted alternative: an inner full loop over each group
-                inner = [u for u in trs if root(u.source, bt, facts.crate) == (("elem", t_.header), [])]
-                if len(inner) == 1 and inner[0].full:
-                    tr = inner[0]
-                else:
-                    problems.append("the traversal does not reach the ids inside the groups of the stage (%s)" % t_.iter_ty)
-    if tr is None:
-        problems.append("no traversal of self.ids[stage] found")
-    removers = []
-    for bb, t in rid.normal_calls():
-        c = Callee(t["func"])
-        if c.local or not t["args"]:
-            continue
-        args = bt.call_args(bb)
-        if root(args[0], bt, facts.crate)[0] == ("param", 3) and c.name in S.SHAPE_MUTATORS:
-            removers.append((bb, c, args))
-    if "own-stage" in want:
-        for bb, c, args in removers:
-            if tr is None or bb not in tr.loop:
-                problems.append("the pending list is modified by `%s` outside the loop over ids[stage] (%s)" % (c.name, rid.loc(bb)))
-        # the closure that selects entries compares with the loop element
-        sel = []
-        for cb in facts.closures_of(rid, False):
-            cr = prog.creation(cb)
-            if not cr:
-                continue
-            parent, agg, dest, _ = cr
-            caps = dict(zip(agg[4], agg[3]))
-            cmp_ok = False
-            for bb, t in cb.normal_calls():
-                cc = Callee(t["func"])
-                if cc.trait == "std::cmp::PartialEq" and cc.name in ("eq", "ne"):
-                    a = prog.bt(cb).call_args(bb)
-                    bases = set()
-                    for x in a:
-                        b_, p_ = root(x, prog.bt(cb), facts.crate)
-                        bases.add(b_)
-                    if ("param", 2) in bases and any(b_[0] == "upvar" for b_ in bases if isinstance(b_, tuple)):
-                        up = [b_ for b_ in bases if b_[0] == "upvar"][0]
-                        src = caps.get(up[1])
-                        if tr is not None and src is not None and root(src, bt, facts.crate)[0] == ("elem", tr.header):
-                            cmp_ok = True
-                    sel.append((cb, cc.name, cmp_ok))
-        if not any(ok_ for _, _, ok_ in sel):
-            problems.append("no selection closure compares a pending entry with the id read from ids[stage]")
-        report.ob(rule, "remove_ids/own-stage", not problems, "; ".join(problems) if problems else
-                  "entries are removed inside a full traversal of ids[stage] (flattened) and only when equal to the id read there", site=rid.loc(), config=config)
-    if "all-occurrences" in want:
+    """C02.ORDER: a stage is judged against the pending list before its own ids are crossed off: same stage, same list."""
+    m = model(ctx, facts)
+    ev = m.it_ev
+    is_rm = _is_rm(m)
+    dep_arg = [i for i, r in m.fc_role.items() if r == "DEP"]
+    for S in m.scans:
         pr = []
-        names = [c.name for _, c, _ in removers]
-        if not removers:
-            pr.append("remove_ids never removes anything")
-        elif all(n in ("retain", "retain_mut") for n in names):
-            pass  # retain removes every matching entry
-        elif "remove" in names or "swap_remove" in names:
-            # accepted only if the removal is itself repeated until no entry is left, or the list is duplicate-free by construction
-            dedup = _dep_list_deduped(ctx, facts)
-            inner_loops = [t_ for t_ in traversals(prog, rid) if tr is not None and t_.header in tr.loop and t_.header != tr.header]
-            while_loops = [h for h, blocks in bt.cfg.loops() if tr is not None and h in tr.loop and h != tr.header and set(blocks) < set(tr.loop)
-                           and any(bb in blocks for bb, c, _ in removers)]
-            if not dedup and not while_loops:
-                pr.append("a finished dependency is crossed off with a single `%s` of the first match: a list naming the same system twice keeps a stale entry and forces a needless stage" % [n for n in names if n in ("remove", "swap_remove")][0])
-        else:
-            pr.append("unrecognised removal idiom %s" % names)
-        report.ob(rule, "remove_ids/all-occurrences", not pr, "; ".join(pr) if pr else "every equal entry is removed (%s)" % "/".join(sorted(set(names))), site=rid.loc(removers[0][0]) if removers else rid.loc(), config=config)
-
-
-def _dep_list_deduped(ctx, facts):
-    """Is the dependency list made duplicate-free (sort + dedup) before placement?"""
-    prog = ctx.program(facts)
-    for q in (A.SB + "::insert", A.DB + "::add"):
-        b = facts.one(q)
-        bt = prog.bt(b)
-        for bb, t in b.normal_calls():
-            c = Callee(t["func"])
-            if c.name in ("dedup", "dedup_by_key") and not c.local:
-                a = bt.call_args(bb)
-                r_, p_ = root(a[0], bt, facts.crate)
-                if (q.endswith("insert") and r_ == ("param", 2)) or (q.endswith("add") and isinstance(r_, tuple) and r_[0] == "call" and bt.callee(r_[1]).name == "collect"):
-                    return True
-    return False
+        for it in S.iters:
+            if it.end == "done":
+                continue
+            calls = [e for e in it.path.events if e[0] == "call"]
+            fcs = [i for i, e in enumerate(calls) if e[2].key == m.fc.key]
+            rms = [i for i, e in enumerate(calls) if is_rm(e[2])]
+            if len(fcs) != 1 or len(rms) != 1:
+                pr.append("in one step of the scan the stage is judged %d time(s) and crossed off %d time(s)" % (len(fcs), len(rms)))
+                continue
+            if not fcs[0] < rms[0]:
+                pr.append("a stage's ids are crossed off the pending list before the stage is judged")
+            fa = calls[fcs[0]][3]
+            ra = calls[rms[0]][3]
+            same_list = len(dep_arg) == 1 and Q.strip(ev, fa[dep_arg[0] - 1]) == Q.strip(ev, ra[2])
+            if not (ra[0] == ("param", 1) and Q.strip(ev, ra[1]) == S.elem and same_list):
+                pr.append("remove_ids is not applied to (this stage, the pending list that was judged)")
+        report.ob(rule, "evaluate/find_conflict-before-remove_ids", not pr,
+                  "the stage is judged against the pending list before its own ids are crossed off (same stage, same list)" if not pr else "; ".join(sorted(set(pr))),
+                  site=Q.site_of(ev, S) or m.it.loc(), config=config)
 
 
 def depcover(ctx, report, rule, facts, config):
-    """C10.DEPCOVER: the stages whose ids are crossed off the pending list
-    cover every stage in front of the candidate being judged: the ranges that
-    feed remove_ids' stage argument chain from constant 0 to the scan range."""
-    prog = ctx.program(facts)
-    rid, sites = _remove_ids_sites(ctx, facts)
-    ch = chain(ctx, facts)
-    it = ch["body"]
-    report.touched(it, config)
-    ranges = []  # (lo term, hi term, where, body)
+    """C10.DEPCOVER: the stages whose ids are crossed off the pending list cover every stage in front of the
+    candidate being judged: the ranges that feed remove_ids' stage argument chain from 0 to the scan range."""
+    m = model(ctx, facts)
+    ev = m.it_ev
+    is_rm = _is_rm(m)
+    report.touched(m.it, config)
     problems = []
-    for cb, bb in sites:
-        bt = prog.bt(cb)
-        args = bt.call_args(bb)
-        st = args[1]
-        rng = None
-        if cb.is_closure and st == ("param", 2):
-            # element of the adaptor's receiver
-            for parent, pbb, j in prog.closure_uses(cb):
-                pa = prog.bt(parent).call_args(pbb)
-                if j >= 1 and pa[0][0] == "agg" and pa[0][2] == "std::ops::Range::Range":
-                    rng = (pa[0][3][0], pa[0][3][1], parent, pbb, "scan")
-        else:
-            b_, p_ = root(st, bt, facts.crate)
-            if isinstance(b_, tuple) and b_[0] == "elem":
-                for tr in traversals(prog, cb):
-                    if tr.header == b_[1] and isinstance(tr.source, tuple) and tr.source[0] == "agg" and tr.source[2] == "std::ops::Range::Range":
-                        if not tr.full:
-                            problems.append("the pre-scan cross-off loop is not a full traversal: " + tr.why)
-                        rng = (tr.source[3][0], tr.source[3][1], cb, tr.header, "loop")
-        if rng is None:
-            problems.append("remove_ids at %s is applied to a stage that does not come from a range (%s)" % (cb.loc(bb), st))
-        else:
-            ranges.append(rng)
-    # chain from 0
-    cur = ("int", 0)
-    used = []
-    todo = list(ranges)
-    progress = True
-    while progress:
-        progress = False
-        for r in list(todo):
-            if r[0] == cur:
-                used.append(r)
-                todo.remove(r)
-                cur = r[1]
-                progress = True
-    scan = [r for r in ranges if r[4] == "scan"]
-    covered_to_scan_start = bool(scan) and any(u is scan[0] for u in used)
-    if not scan:
-        problems.append("the candidate scan does not cross ids off at all")
-    elif not covered_to_scan_start:
-        problems.append("the ids of stages 0..%s are never crossed off the pending dependency list: a dependency on a system in front of the barrier "
-                        "keeps every later stage rejected and forces a stage of its own" % _short(scan[0][0]))
-    # the pre-scan cross-off must happen before the scan starts
-    if scan and covered_to_scan_start:
-        for u in used:
-            if u[4] == "loop" and u[2].key == it.key:
-                scan_bb = scan[0][3]
-                if not prog.bt(it).cfg.dominates(u[3], scan_bb):
-                    problems.append("the pre-scan cross-off does not dominate the scan")
-    report.ob(rule, "remove_ids/coverage", not problems, "; ".join(problems) if problems else
-              "ids are crossed off for stages %s" % " then ".join("%s..%s" % (_short(u[0]), _short(u[1])) for u in used), site=it.loc(), config=config)
-    report.floor(rule, "remove_ids call sites", len(sites), 1, config=config)
+    S_ids = set(id(L) for L in m.scans)
+    checked = 0
+    for e in m.it_ends:
+        if e.kind != "return":
+            continue
+        loops = [x for x in e.path.events if x[0] == "loop"]
+        pos = [i for i, x in enumerate(loops) if id(x[1]) in S_ids]
+        if len(pos) != 1:
+            problems.append("a path through insertion_target does not pass the candidate scan exactly once")
+            continue
+        checked += 1
+        cur = ("int", 0)
+        used = []
+        for x in loops[:pos[0]]:
+            L = x[1]
+            if not Q.loop_contains_call(L, is_rm, deep=False):
+                continue
+            rng = Q.range_of(L)
+            if rng is None:
+                problems.append("ids are crossed off for stages that do not come from a range")
+                continue
+            full = Q.is_full(L) and all(len([c for c in Q.calls_in(it.path.events, is_rm) if c[3][0] == ("param", 1) and Q.strip(ev, c[3][1]) == L.elem]) == 1
+                                        for it in L.iters if it.end == "continue")
+            if not full:
+                problems.append("the cross-off loop in front of the scan skips stages")
+            if rng[0] == cur:
+                used.append(rng)
+                cur = rng[1]
+        srng = Q.range_of(loops[pos[0]][1])
+        if srng is None:
+            problems.append("the candidate scan is not a range")
+        elif srng[0] != cur and srng[0] != ("int", 0):
+            problems.append("the ids of stages %s..%s are never crossed off the pending dependency list: a dependency on a system in front of the barrier "
+                            "keeps every later stage rejected and forces a stage of its own" % (_short(cur), _short(srng[0])))
+        # inside the scan every judged stage is crossed off (ORDER decides the order)
+        for it in loops[pos[0]][1].iters:
+            if it.end == "continue" and len([c for c in Q.calls_in(it.path.events, is_rm) if Q.strip(ev, c[3][1]) == loops[pos[0]][1].elem]) != 1:
+                problems.append("a rejected candidate's ids are not crossed off the pending list")
+    if not checked:
+        problems.append("no normal path through insertion_target")
+    report.ob(rule, "remove_ids/coverage", not problems, "; ".join(sorted(set(problems))) if problems else
+              "ids are crossed off for every stage from 0 up to the candidate being judged", site=m.it.loc(), config=config)
+    n_sites = len(facts.callers().get(facts.one(A.SB + "::remove_ids").key, []))
+    report.floor(rule, "remove_ids call sites", n_sites, 1, config=config)
+
+
+def crossoff(ctx, report, rule, facts, config, want=("own-stage", "all-occurrences")):
+    """remove_ids(stage, dep): an entry goes only when equal to an id of ids[stage] (C02.CROSSOFF) and every equal entry goes (C10.ALLOCC)."""
+    rid = facts.one(A.SB + "::remove_ids")
+    report.touched(rid, config)
+    ev, ends = Q.sem(ctx, facts, A.SB + "::remove_ids")
+    loops = Q.all_loops(ends)
+
+    def over_dep(L):
+        return L.kind == "model:retain" and Q.strip(ev, L.source) == ("param", 3)
+
+    def ids_level(L):
+        """1 if L runs over the ids of the stage (flattened), 2 if over the ids of one group of the stage, 0 otherwise."""
+        src = L.source
+        c = Q.callee_of(ev, src)
+        if c is not None and c.name == "flatten" and not c.local:
+            fields, idx, base = Q.table_access(ev, src[2][0])
+            if Q.crate_fields(fields) == [(A.SB, "ids")] and base == ("param", 1) and idx == [("param", 2)]:
+                return 1
+            return 0
+        s = Q.strip(ev, src)
+        if s[0] == "elem":
+            outer = [O for O in loops if O.elem == s]
+            if outer:
+                fields, idx, base = Q.table_access(ev, outer[0].source)
+                oc = Q.callee_of(ev, Q.strip(ev, outer[0].source))
+                if (Q.crate_fields(fields) == [(A.SB, "ids")] and base == ("param", 1) and idx == [("param", 2)]
+                        and (oc is None or oc.name in ("index", "index_mut")) and Q.is_full(outer[0]) and not outer[0].stages):
+                    return 2
+        return 0
+
+    id_loops = [L for L in loops if ids_level(L)]
+    dep_loops = [L for L in loops if over_dep(L)]
+    own = []
+    allocc = []
+    if not dep_loops:
+        own.append("the pending list is not filtered with `retain`")
+        allocc.append("remove_ids does not remove with `retain` (every equal entry must go)")
+    if not id_loops:
+        own.append("no traversal of self.ids[stage] found")
+    id_elems = dict((L.elem, L) for L in id_loops)
+    # other mutations of the pending list
+    for e in ends:
+        for ce in Q.calls_in(e.path.events, lambda c: not c.local and c.name in ("remove", "swap_remove", "clear", "truncate", "pop", "drain", "dedup", "insert", "push"), deep=True):
+            if ce[3] and Q.strip(ev, ce[3][0]) == ("param", 3):
+                own.append("the pending list is modified by `%s`" % ce[2].name)
+                allocc.append("a finished dependency is crossed off with `%s`: a list naming the same system twice keeps a stale entry and forces a needless stage" % ce[2].name)
+    for D in dep_loops:
+        for it in D.iters:
+            if it.end == "done":
+                continue
+            if it.end != "continue" or it.ret not in (("int", 0), ("int", 1)):
+                own.append("unrecognised outcome of the retain predicate")
+                continue
+            keep = it.ret[1]
+            equal = None   # is the entry known equal / unequal to an id of the stage on this way
+            foreign = False
+            for (ct, cv, cn, cs) in it.conds:
+                c = Q.callee_of(ev, ct)
+                if c is not None and c.trait in PEQ and c.name in ("eq", "ne") and len(ct[2]) == 2:
+                    a, b = Q.strip(ev, ct[2][0]), Q.strip(ev, ct[2][1])
+                    other = b if a == D.elem else (a if b == D.elem else None)
+                    if other is None:
+                        foreign = True
+                        continue
+                    if other in id_elems:
+                        eq = (cv == 1) if c.name == "eq" else (cv == 0)
+                        equal = eq if equal is None else (equal or eq)
+                    else:
+                        foreign = True
+                elif ct[0] in ("call", "bin"):
+                    foreign = True
+            if keep == 0 and equal is not True:
+                own.append("an entry can be removed without being equal to an id read from ids[stage]")
+            if keep == 0 and foreign:
+                own.append("removal also depends on something else than equality with an id of the stage")
+            if keep == 1 and equal is True:
+                allocc.append("an entry equal to an id of the stage can be kept")
+    # the ids of the stage are all looked at
+    for L in id_loops:
+        if L.kind.startswith("model:any") or L.kind.startswith("model:find") or L.kind.startswith("model:position"):
+            continue
+        if not Q.is_full(L):
+            allocc.append("the ids of the stage are not all looked at")
+            own.append("the traversal of the ids of the stage can stop early")
+        if L.stages:
+            allocc.append("the ids of the stage pass through %s" % [n for n, _ in L.stages])
+    if "own-stage" in want:
+        report.ob(rule, "remove_ids/own-stage", not own, "; ".join(sorted(set(own))) if own else
+                  "an entry is removed only when equal to an id read from ids[stage]", site=rid.loc(), config=config)
+    if "all-occurrences" in want:
+        report.ob(rule, "remove_ids/all-occurrences", not allocc, "; ".join(sorted(set(allocc))) if allocc else
+                  "every entry equal to an id of the stage is removed (retain over the whole list, all ids looked at)", site=rid.loc(), config=config)
 
 
 def _short(t):
@@ -819,96 +920,231 @@ def _short(t):
     if t[0] == "field":
         return "self." + t[2] if t[1] == ("param", 1) else "%s.%s" % (_short(t[1]), t[2])
     if t[0] == "call":
-        return "call@bb%d(..)" % t[1]
+        return "call(..)"
     return t[0]
 
 
+# ------------------------------------------------------------------ WIDTH
+
 def width(ctx, report, rule, facts, config):
     """C10.WIDTH: max_threads = max over all stages of the number of groups."""
-    prog = ctx.program(facts)
     sm = facts.one(A.STAGE + "::max_threads")
     report.touched(sm, config)
-    ret = prog.bt(sm).local(0)
-    fields, idx, base = S.table_access(sm, ret[2][0]) if _is_call(sm, ret, "len") else ([], [], None)
-    ok = S.crate_fields(fields) == [(A.STAGE, "groups")] and not idx and base == ("param", 1)
-    report.ob(rule, "Stage::max_threads", ok, "returns self.groups.len()" if ok else "returns %s (expected the number of groups)" % (ret,), site=sm.loc(), config=config)
+    ev, ends = Q.sem(ctx, facts, A.STAGE + "::max_threads")
+    rets = _ret_ends(ends)
+    ok = bool(rets)
+    for e in rets:
+        r = e.ret
+        fields, idx, base = Q.table_access(ev, r[2][0]) if Q.is_call(ev, r, "len") else ([], [], None)
+        ok = ok and Q.crate_fields(fields) == [(A.STAGE, "groups")] and not idx and base == ("param", 1)
+    report.ob(rule, "Stage::max_threads", ok, "returns self.groups.len()" if ok else "does not return the number of groups", site=sm.loc(), config=config)
     dm = facts.one(A.SD + "::max_threads")
     report.touched(dm, config)
-    bt = prog.bt(dm)
-    ret = bt.local(0)
-    names = []
-    t = ret
-    fnrefs = []
-    while isinstance(t, tuple) and t and t[0] == "call":
-        c = bt.callee(t[1])
-        names.append(c.name)
-        for a in t[2][1:]:
-            if a[0] == "fnref":
-                fnrefs.append(a[1])
-            elif a[0] == "int":
-                fnrefs.append(a)
-        t = t[2][0] if t[2] else None
-    ok = names in (["unwrap_or", "max", "map", "iter", "deref"], ["unwrap_or", "max", "map", "iter"])
-    fold_max = names in (["fold", "map", "iter", "deref"], ["fold", "map", "iter"]) and any(
-        isinstance(f_, str) and f_.endswith("::max") or (isinstance(f_, str) and "cmp::Ord" in f_) for f_ in fnrefs) or (
-        names[:1] == ["fold"] and any(isinstance(f_, str) and "max" in f_.rsplit("::", 1)[-1] for f_ in fnrefs))
-    ok = (ok or fold_max) and sm.key in fnrefs and ("int", 0) in fnrefs and t == ("field", ("param", 1), "stages", A.SD)
-    report.ob(rule, "SendDispatcher::max_threads", ok, "self.stages.iter().map(Stage::max_threads).max().unwrap_or(0)" if ok else
-              "max_threads is computed as %s over %s" % (list(reversed(names)), t), site=dm.loc(), config=config)
+    ev, ends = Q.sem(ctx, facts, A.SD + "::max_threads", opaque=[A.STAGE + "::max_threads"])
+    pr = []
+    rets = _ret_ends(ends)
+    if not rets:
+        pr.append("no normal path")
+    for e in rets:
+        ls = [x for x in e.path.events if x[0] == "loop"]
+        if len(ls) != 1:
+            pr.append("expected one traversal of the stages, found %d" % len(ls))
+            continue
+        L = ls[0][1]
+        fields, idx, base = Q.table_access(ev, L.source)
+        if not (Q.crate_fields(fields) == [(A.SD, "stages")] and not idx and base == ("param", 1)) or Q.callee_of(ev, Q.strip(ev, L.source)) is not None:
+            pr.append("the traversal does not run over self.stages")
+        if not Q.is_full(L):
+            pr.append("the traversal of the stages can stop early")
+        if [n for n, _ in L.stages if n != "map"]:
+            pr.append("stages pass through %s" % [n for n, _ in L.stages])
+        keys = [k for k in L.carried]
+        if len(keys) != 1:
+            pr.append("expected one running maximum, found %d" % len(keys))
+            continue
+        k = keys[0]
+        lv = ("lvar", L.id, k)
+        init = L.carried[k]
+        is_w = lambda t: Q.is_call(ev, t, "max_threads") and Q.callee_of(ev, t).key == sm.key and Q.strip(ev, t[2][0]) == L.elem
+        opt = init[0] == "agg" and init[2] == OPTION + "::None"
+        if not (init == ("int", 0) or opt):
+            pr.append("the running maximum does not start at 0")
+        for it in L.iters:
+            if it.end != "continue":
+                continue
+            u = it.updates.get(k)
+            good = False
+            if opt:
+                # Iterator::max model: Some(max(previous or x, x))
+                good = (u[0] == "agg" and u[2] == OPTION + "::Some" and u[3][0][0] == "bin" and u[3][0][1] == "Max" and is_w(u[3][0][3]))
+            elif Q.callee_of(ev, u) is not None and Q.callee_of(ev, u).name == "max" and len(u[2]) == 2:
+                a, b = Q.strip(ev, u[2][0]), Q.strip(ev, u[2][1])
+                good = (a == lv and is_w(b)) or (b == lv and is_w(a))
+            else:
+                rel = None
+                for (ct, cv, cn, cs) in it.conds:
+                    nc = Q.norm_cmp(ct, cv)
+                    if nc is None:
+                        continue
+                    op, a, b = nc
+                    a, b = Q.strip(ev, a), Q.strip(ev, b)
+                    if a == lv and is_w(b):
+                        rel = Q.FLIP[op]
+                    elif b == lv and is_w(a):
+                        rel = op
+                # rel: relation (width ? running maximum) that holds on this way
+                if rel in ("Gt", "Ge") and is_w(u):
+                    good = True
+                if rel in ("Le", "Lt", "Eq") and u == lv:
+                    good = True
+                if rel == "Ge" and u == lv:
+                    good = False
+            if not good:
+                pr.append("the running value is not updated to max(previous, stage.max_threads())")
+        r = e.ret
+        lx = ("lexit", L.id, k)
+        if opt:
+            v = e.path.variant(lx)
+            good = (v == "None" and r == ("int", 0)) or (v == "Some" and r == ("field", ("variant", lx, "Some"), "0", OPTION))
+            if not good:
+                pr.append("the result is not the maximum (0 when there are no stages)")
+        elif r != lx:
+            pr.append("the result is not the running maximum")
+    report.ob(rule, "SendDispatcher::max_threads", not pr, "the maximum over all stages of Stage::max_threads(), 0 if there are none" if not pr else
+              "; ".join(sorted(set(pr))), site=dm.loc(), config=config)
     d = facts.one(A.DISP + "::max_threads")
-    bt = prog.bt(d)
-    ret = bt.local(0)
-    ok = _is_call(d, ret, "max_threads") and ret[2] == (("field", ("param", 1), "inner", A.DISP),)
+    ev, ends = Q.sem(ctx, facts, A.DISP + "::max_threads", opaque=[A.SD + "::max_threads"])
+    rets = _ret_ends(ends)
+    ok = bool(rets) and all(Q.is_call(ev, e.ret, "max_threads") and Q.callee_of(ev, e.ret).key == dm.key and e.ret[2] == (("field", ("param", 1), "inner", A.DISP),) for e in rets)
     report.ob(rule, "Dispatcher::max_threads", ok, "forwards to self.inner.max_threads()", site=d.loc(), config=config)
 
 
 # ------------------------------------------------------------------ the intersection primitive itself
 
 def intersect_body(ctx, report, rule, facts, config):
-    """check_intersection(i, j) is `exists a in i, exists b in j: b == a`: `any` over the whole of `i`, for each
-    element `any` over a fresh clone of the whole of `j`, compared with PartialEq::eq; no adaptor in between."""
-    prog = ctx.program(facts)
+    """check_intersection(i, j) is `exists a in i, exists b in j: b == a`: a scan of the whole of `i`, for each
+    element a scan of a fresh copy of the whole of `j`, elements compared with `==`; true exactly when a pair is equal."""
     b = facts.one(A.F_CHECK_INTERSECTION)
     report.touched(b, config)
-    bt = prog.bt(b)
+    ev, ends = Q.sem(ctx, facts, A.F_CHECK_INTERSECTION)
     problems = []
-    ret = bt.local(0)
-    if not (_is_call(b, ret, "any") and bt.callee(ret[1]).trait in A.ITERATOR and ret[2][0] == ("param", 1)):
-        problems.append("the result is not `i.any(..)` over the whole first iterator (%s)" % (ret[:2],))
-    cl1 = facts.closures_of(b, False)
-    if len(cl1) != 1:
-        problems.append("expected one closure in check_intersection")
-    else:
-        c1 = cl1[0]
-        report.touched(c1, config)
-        bt1 = prog.bt(c1)
-        r1 = bt1.local(0)
-        ok1 = (_is_call(c1, r1, "any") and bt1.callee(r1[1]).trait in A.ITERATOR and _is_call(c1, r1[2][0], "clone") and r1[2][0][2] == (("upvar", "j"),))
-        if not ok1:
-            problems.append("each element of `i` is not tested with `j.clone().any(..)` over the whole second iterator")
-        cr = prog.creation(c1)
-        if not (cr and dict(zip(cr[1][4], cr[1][3])).get("j") == ("param", 2)):
-            problems.append("the inner scan does not run over the second argument")
-        cl2 = facts.closures_of(c1, False)
-        if len(cl2) != 1:
-            problems.append("expected one innermost closure")
+    loops = Q.all_loops(ends)
+    outer = [L for L in loops if Q.strip(ev, L.source) == ("param", 1)]
+    inner = [L for L in loops if Q.strip(ev, L.source) == ("param", 2)]
+    if len(set(L.id for L in outer)) != 1:
+        problems.append("the first iterator is not traversed by exactly one loop")
+    if len(set(L.id for L in inner)) != 1:
+        problems.append("the second iterator is not traversed by exactly one loop")
+    for L in inner:
+        c = Q.callee_of(ev, L.source if L.source[0] == "call" else ("x",))
+        # a fresh copy per element of i
+        t = L.source
+        fresh = False
+        while t[0] == "call" and Q.callee_of(ev, t) is not None and not Q.callee_of(ev, t).local and t[2]:
+            if Q.callee_of(ev, t).name == "clone":
+                fresh = True
+            t = t[2][0]
+        nested = any(any(x[0] == "loop" and x[1].id == L.id for x in it.path.events) for O in outer for it in O.iters)
+        if not nested:
+            problems.append("the second iterator is not scanned once per element of the first")
+        elif not fresh:
+            problems.append("each element of `i` is not tested against a fresh `j.clone()` (the second scan would be used up)")
+    for L in outer + inner:
+        if L.stages or L.kind == "while":
+            problems.append("an iterator passes through %s before the comparison" % ([n for n, _ in L.stages] or L.kind))
+    elems = set(L.elem for L in outer), set(L.elem for L in inner)
+
+    def pair_equal(conds):
+        """True / False if the path decides that the current pair is equal / unequal, None otherwise; 'bad' for another test."""
+        res = None
+        for (ct, cv, cn, cs) in conds:
+            c = Q.callee_of(ev, ct)
+            if c is not None and c.trait in PEQ and c.name in ("eq", "ne") and len(ct[2]) == 2:
+                a, bb_ = Q.strip(ev, ct[2][0]), Q.strip(ev, ct[2][1])
+                if (a in elems[0] and bb_ in elems[1]) or (a in elems[1] and bb_ in elems[0]):
+                    res = (cv == 1) if c.name == "eq" else (cv == 0)
+                else:
+                    return "bad"
+            elif ct[0] in ("call", "bin"):
+                return "bad"
+        return res
+
+    for e in ends:
+        if e.kind != "return":
+            if e.kind == "diverge":
+                problems.append("check_intersection can panic")
+            continue
+        pe = pair_equal(e.path.conds)
+        if pe == "bad":
+            problems.append("the result depends on something else than `==` between an element of i and an element of j")
+        elif e.ret == ("int", 1):
+            if pe is not True:
+                problems.append("true is returned without an equal pair")
+        elif e.ret == ("int", 0):
+            if pe is True:
+                problems.append("false is returned although a pair is equal")
+            # must come from exhausting i
+            exh = [x for x in e.path.events if x[0] == "loop" and x[1].id in set(L.id for L in outer) and x[1].iters[x[2]].end == "done"] if outer else []
+            if not exh:
+                problems.append("false is returned before the first iterator is exhausted")
         else:
-            c2 = cl2[0]
-            report.touched(c2, config)
-            bt2 = prog.bt(c2)
-            r2 = bt2.local(0)
-            ok2 = (_is_call(c2, r2, "eq") and bt2.callee(r2[1]).trait in ("std::cmp::PartialEq", "core::cmp::PartialEq")
-                   and set([root(x, bt2, facts.crate)[0] for x in r2[2]]) == set([("param", 2), ("upvar", "elem_i")]))
-            if not ok2:
-                problems.append("elements are not compared with `==` (element of j against the current element of i)")
-            cr2 = prog.creation(c2)
-            if not (cr2 and root(dict(zip(cr2[1][4], cr2[1][3])).get("elem_i"), bt1, facts.crate)[0] == ("param", 2)):
-                problems.append("the compared element is not the current element of `i`")
-    report.ob(rule, "check_intersection/body", not problems, "; ".join(problems) if problems else
-              "i.any(|a| j.clone().any(|b| *b == *a)): full scan of both sides, equality only", site=b.loc(), config=config)
+            problems.append("the result is not a constant decided by the scan")
+    # no way of the inner scan continues past an equal pair, none of the outer scan either
+    for L in inner:
+        for it in L.iters:
+            if it.end == "continue" and pair_equal(it.conds) is True:
+                problems.append("the inner scan continues after an equal pair")
+            if it.end in ("break", "return") and pair_equal(it.conds) is not True:
+                problems.append("the inner scan stops without an equal pair")
+    for L in outer:
+        for it in L.iters:
+            if it.end in ("break", "return") and pair_equal(it.conds) is not True:
+                problems.append("the outer scan stops without an equal pair")
+    report.ob(rule, "check_intersection/body", not problems, "; ".join(sorted(set(problems))) if problems else
+              "for every a in i and every b in a fresh copy of j: true exactly when some b == a; both sides scanned in full, equality only", site=b.loc(), config=config)
     # ids are compared with the compiler-derived equality over all their fields
     for adt in (A.RESID, A.SYSID):
         ims = [im for im in facts.impls if im.get("trait") == "std::cmp::PartialEq" and im.get("self_head") == adt]
         ok = len(ims) == 1 and ims[0]["auto_derived"]
         report.ob(rule, "derived-eq/%s" % adt.rsplit("::", 1)[1], ok, "#[derive(PartialEq)] over all fields" if ok else
                   "%s has a hand-written PartialEq: conflicts between ids that differ in an ignored field would be missed or invented" % adt, config=config)
+
+
+# ------------------------------------------------------------------ small services for other rule families
+
+class _NoCtx(object):
+    pass
+
+
+def acc_fields(facts, ctx=None):
+    """Names of the StagesBuilder fields that accumulate declared reads, declared writes and system ids."""
+    return dict(model(ctx or _NoCtx(), facts).acc)
+
+
+def group_bound(ctx, facts):
+    """K such that a group is joined only while its length is below K (None if not recognised), and the site."""
+    m = model(ctx, facts)
+    ev = m.it_ev
+    fc = m.fc_call
+    k = None
+    for S in m.scans:
+        g = ("field", ("variant", fc, "Single"), "0", A.CONFLICT)
+
+        def is_len(t):
+            if not Q.is_call(ev, t, "len"):
+                return False
+            fields, idx, base = Q.table_access(ev, t[2][0])
+            return (Q.crate_fields(fields) == [(A.SB, "stages"), (A.STAGE, "groups")] and base == ("param", 1) and len(idx) == 2
+                    and Q.strip(ev, idx[0]) == S.elem and Q.strip(ev, idx[1]) == g)
+
+        for it in S.iters:
+            if it.end in ("break", "return") and it.path.variant(fc) == "Single":
+                b = None
+                for (ct, cv, cn, cs) in it.conds:
+                    bb_ = _lt_bound(ev, ct, cv, is_len)
+                    if bb_ is not None and bb_[0] == "lt":
+                        b = bb_[1]
+                if b is None:
+                    return None, m.it.loc()
+                k = b if k is None else max(k, b)
+    return k, m.it.loc()
